@@ -1,13 +1,240 @@
-(* Props/C10.v -- property C10 (provisional instance through the generated estimator flags; the general theorems are being added) *)
-From Coq Require Import NArith QArith List.
-From RP Require Import Gen.GenFixes Model.Cfr.
+(* Props/C10.v -- property C10: the sampled game tree (src/mccfr/{blueprint,tree,node}.rs).
+   The per-run check validates every node of real sampled trees against Model/Tree.v; here the
+   for-all part:
+     - the raise cap of the abstract menu: a raise edge needs n_raises <= MAX_RAISE_REPEATS
+       (C10_raise_needs_room); every betting round of a sampled history holds at most
+       MAX_RAISE_REPEATS + 1 raise edges PROVIDED the rounds fit the window of Node::subgame
+       (C10_raise_cap: hypothesis max_round_length h <= MAX_DEPTH_SUBGAME; it cannot be dropped
+       for bare menu-disciplined histories, C10_raise_cap_needs_short_rounds); along the paths of
+       a tree over reachable game states a round has at most MAX_RAISE_REPEATS + 5 = 8 <= 16
+       edges (C10_round_short), so there the cap holds with no side condition
+       (C10_raise_cap_tree); with the original subgame the cap is not enforced
+       (C10_raise_cap_needs_fix);
+     - children are the parent after a permitted action, at decision and at chance nodes;
+       leaves are zero-sum; paths have at most max_history edges; the menu of a traverser node is
+       non-empty and duplicate-free and each of its edges has a child;
+     - the inverse-CDF sampler picks index i exactly on an interval of length w_i; the uniform
+       initial strategy.
+   Definitions: Spec/SpecTree.v. *)
+From Coq Require Import ZArith NArith List Bool QArith.
+From RP Require Import Base.Bits Gen.GenLib Gen.GenFixes Gen.GenAbstract Model.Codec Model.Showdown Model.Game
+                       Model.Tree Spec.SpecGameInv Spec.SpecMenu Spec.SpecTree
+                       Proofs.C03_Examples Proofs.C10_Cap Proofs.C10_Step Proofs.C10_Tree
+                       Proofs.C10_Sampler Proofs.C10_Examples.
 Import ListNotations.
-Open Scope Q_scope.
-(* traverser node with two actions worth 1 and 3 played with probabilities 1/4 and 3/4, below an opponent edge of probability 1/2 *)
-Definition ex_tree : qtree :=
-  T KOpponent 0%N 0 [(7%N, 1#2, T KWalker 1%N 0 [(2%N, 1#4, T KWalker 2%N 1 []); (3%N, 3#4, T KWalker 3%N 3 [])])].
-Theorem C10_estimator_instance :
-  map (fun x => Qred (snd x)) (immediate_regrets_Q ex_tree) = map (fun x => Qred (snd x)) (regret_estimator_Q ex_tree)
-  /\ map (fun x => Qred (snd x)) (regret_estimator_Q ex_tree) = [- (3#2); 1#2].
-Proof. vm_compute. split; reflexivity. Qed.
-Print Assumptions C10_estimator_instance.
+Open Scope Z_scope.
+
+(* ---------- the raise cap ---------- *)
+Theorem C10_raise_needs_room : forall g h m a b,
+  node_menu g h = Some m -> In (ERaise a b) m -> n_raises h <= MAX_RAISE_REPEATS.
+Proof. exact raise_needs_room. Qed.
+Print Assumptions C10_raise_needs_room.
+
+(* every betting round of a sampled history has at most MAX_RAISE_REPEATS + 1 raise edges, as long
+   as no round is longer than the window of Node::subgame *)
+Theorem C10_raise_cap : forall h, sampled_history h -> max_round_length h <= MAX_DEPTH_SUBGAME ->
+  max_raise_edges_per_round h <= MAX_RAISE_REPEATS + 1.
+Proof. exact raise_cap. Qed.
+Print Assumptions C10_raise_cap.
+
+(* the hypothesis on the round length is needed: sampled_history lets ANY game state stand behind
+   a node; 4 raises, 16 checks, and the menu offers a raise again (ex_long_round, Proofs/C10_Cap.v) *)
+Theorem C10_raise_cap_needs_short_rounds :
+  ~ (forall h, sampled_history h -> max_raise_edges_per_round h <= MAX_RAISE_REPEATS + 1).
+Proof. exact raise_cap_needs_short_rounds. Qed.
+Print Assumptions C10_raise_cap_needs_short_rounds.
+
+(* the hypothesis holds along every path of a tree over reachable game states: two passive
+   edges, MAX_RAISE_REPEATS + 1 raises and one all-in per seat at most *)
+Theorem C10_round_short : forall d hs g0 h g,
+  wf_holes d hs -> root d hs = Some g0 -> tree_path d g0 h g ->
+  max_round_length h <= MAX_RAISE_REPEATS + 5.
+Proof. exact round_short. Qed.
+Print Assumptions C10_round_short.
+
+Theorem C10_round_fits_window : forall d hs g0 h g,
+  wf_holes d hs -> root d hs = Some g0 -> tree_path d g0 h g ->
+  max_round_length h <= MAX_DEPTH_SUBGAME.
+Proof. exact round_fits_window. Qed.
+Print Assumptions C10_round_fits_window.
+
+Theorem C10_tree_path_sampled : forall d g0 h g, tree_path d g0 h g -> sampled_history h.
+Proof. exact tree_path_sampled. Qed.
+Print Assumptions C10_tree_path_sampled.
+
+(* hence: the cap on every path of a sampled tree, no side condition *)
+Theorem C10_raise_cap_tree : forall d hs g0 h g,
+  wf_holes d hs -> root d hs = Some g0 -> tree_path d g0 h g ->
+  max_raise_edges_per_round h <= MAX_RAISE_REPEATS + 1.
+Proof. exact raise_cap_tree. Qed.
+Print Assumptions C10_raise_cap_tree.
+
+(* aggressive edges (raises and all-ins; Model.Tree.max_raises_per_round) per round of a tree path:
+   the raises plus one all-in per seat; attained by ex_long_edges below *)
+Theorem C10_aggro_per_round : forall d hs g0 h g,
+  wf_holes d hs -> root d hs = Some g0 -> tree_path d g0 h g ->
+  max_raises_per_round h <= MAX_RAISE_REPEATS + 3.
+Proof. exact aggro_per_round. Qed.
+Print Assumptions C10_aggro_per_round.
+
+(* subgame_with is Node::subgame with the direction of the walk as a parameter ... *)
+Theorem C10_subgame_with : forall h,
+  subgame_with SUBGAME_FROM_NODE h = subgame h /\ n_raises_with SUBGAME_FROM_NODE h = n_raises h.
+Proof. exact (fun h => conj (subgame_with_fix h) (n_raises_with_fix h)). Qed.
+Print Assumptions C10_subgame_with.
+
+(* ... and walking from the root (the original code) the flop round of this history, which
+   already holds MAX_RAISE_REPEATS + 1 raises, is counted as 1 (the pre-flop raise): on every
+   flop state all raise sizes are still offered -- the cap is not enforced *)
+Theorem C10_raise_cap_needs_fix :
+  n_raises_with false [ERaise 1 1; ECall; EDraw; ERaise 1 1; ERaise 1 1; ERaise 1 1; ERaise 1 1] = 1 /\
+  n_raises_with true [ERaise 1 1; ECall; EDraw; ERaise 1 1; ERaise 1 1; ERaise 1 1; ERaise 1 1]
+  = MAX_RAISE_REPEATS + 1 /\
+  max_raise_edges_per_round [ERaise 1 1; ECall; EDraw; ERaise 1 1; ERaise 1 1; ERaise 1 1; ERaise 1 1]
+  = MAX_RAISE_REPEATS + 1 /\
+  (forall g, street g = 1 ->
+     raises g (n_raises_with false [ERaise 1 1; ECall; EDraw; ERaise 1 1; ERaise 1 1; ERaise 1 1; ERaise 1 1])
+     = FLOP_RAISES /\
+     raises g (n_raises_with true [ERaise 1 1; ECall; EDraw; ERaise 1 1; ERaise 1 1; ERaise 1 1; ERaise 1 1])
+     = []).
+Proof. exact raise_cap_needs_fix_ex. Qed.
+Print Assumptions C10_raise_cap_needs_fix.
+
+(* the same on a node of an actual tree path (limp, check, flop, four half-pot raises): the
+   repaired menu has no raise; the original count is 0, its menu offers every flop size and the
+   engine would carry out the fifth raise *)
+Theorem C10_raise_cap_needs_fix_node :
+  tree_path Standard ex_root ex_line_history ex_line_node /\
+  n_raises ex_line_history = MAX_RAISE_REPEATS + 1 /\
+  node_menu ex_line_node ex_line_history = Some [EShove; ECall; EFold] /\
+  n_raises_with false ex_line_history = 0 /\
+  choices ex_line_node (n_raises_with false ex_line_history)
+  = Some (map (fun o => ERaise (fst o) (snd o)) FLOP_RAISES ++ [EShove; ECall; EFold]) /\
+  child_game Standard ex_line_node (ERaise 1 2) 0 <> None /\
+  max_raise_edges_per_round (ex_line_history ++ [ERaise 1 2]) = MAX_RAISE_REPEATS + 2.
+Proof. exact (conj ex_line_path ex_line_needs_fix). Qed.
+Print Assumptions C10_raise_cap_needs_fix_node.
+
+(* ---------- nodes and children ---------- *)
+(* every child of a decision node is the parent after a permitted action *)
+Theorem C10_child_permitted : forall d hs g i h m e,
+  wf_holes d hs -> reachable d hs g -> turn_of g = Choice i ->
+  node_menu g h = Some m -> In e m ->
+  exists g', child_game d g e 0 = Some g' /\ reachable d hs g'.
+Proof. exact child_permitted. Qed.
+Print Assumptions C10_child_permitted.
+
+Theorem C10_chance_child : forall d hs g c,
+  wf_holes d hs -> reachable d hs g -> turn_of g = Chance -> is_allowed d g (Draw c) = Some true ->
+  exists g', child_game d g EDraw c = Some g' /\ reachable d hs g'.
+Proof. exact chance_child. Qed.
+Print Assumptions C10_chance_child.
+
+(* behind both: Game::act never panics once Game::is_allowed has accepted the action *)
+Theorem C10_progress : forall d hs g a, wf_holes d hs -> reachable d hs g ->
+  is_allowed d g a = Some true -> exists g', apply d g a = Some g' /\ reachable d hs g'.
+Proof. exact reachable_progress. Qed.
+Print Assumptions C10_progress.
+
+(* the menu of a chance node is the single edge EDraw, a leaf has no edge *)
+Theorem C10_chance_menu : forall g h, turn_of g = Chance -> node_menu g h = Some [EDraw].
+Proof. exact chance_menu. Qed.
+Print Assumptions C10_chance_menu.
+Theorem C10_leaf_menu : forall g h, turn_of g = Terminal -> node_menu g h = Some [].
+Proof. exact leaf_menu. Qed.
+Print Assumptions C10_leaf_menu.
+
+(* a leaf is zero-sum: the payoffs (reward minus chips put in) of the seats add up to 0 *)
+Theorem C10_leaf_zero_sum : forall d hs g,
+  wf_holes d hs -> reachable d hs g -> turn_of g = Terminal ->
+  exists rw, settlements d g = Some rw /\
+             sumZ (map (fun '(r, s) => r - spent s) (combine rw (seats g))) = 0.
+Proof. exact leaf_zero_sum. Qed.
+Print Assumptions C10_leaf_zero_sum.
+
+(* every path from the root has at most max_history = 2 * STACK + 16 edges *)
+Theorem C10_finite : forall d hs g0 h g,
+  wf_holes d hs -> root d hs = Some g0 -> tree_path d g0 h g ->
+  Z.of_nat (length h) <= max_history.
+Proof. exact finite. Qed.
+Print Assumptions C10_finite.
+
+Theorem C10_tree_path_reachable : forall d hs g0 h g,
+  root d hs = Some g0 -> tree_path d g0 h g -> reachable d hs g.
+Proof. exact tree_path_reachable. Qed.
+Print Assumptions C10_tree_path_reachable.
+
+(* at a traverser node the menu is non-empty and duplicate-free and every edge has its child *)
+Theorem C10_menu_traverser : forall d hs g h walker,
+  wf_holes d hs -> reachable d hs g -> who_acts g walker = WTraverser ->
+  exists m, node_menu g h = Some m /\ m <> [] /\ NoDup m /\
+            forall e, In e m -> exists g', child_game d g e 0 = Some g' /\ reachable d hs g'.
+Proof. exact menu_traverser. Qed.
+Print Assumptions C10_menu_traverser.
+
+(* ---------- the sampler ---------- *)
+(* non-negative weights, 0 <= u < total (so the total is positive): index i is picked exactly
+   when u lies in [prefix_sum i, prefix_sum (i+1)), an interval of length w_i; the intervals tile
+   [0, total).  A uniform u in [0, total) therefore picks i with probability w_i / total. *)
+Theorem C10_sampler_measure : forall ws u,
+  (forall w, In w ws -> (0 <= w)%Q) -> (0 <= u)%Q -> (u < sumQ ws)%Q ->
+  (forall i, pick ws u = i <-> (prefix_sum ws i <= u)%Q /\ (u < prefix_sum ws (S i))%Q) /\
+  (forall i, (i < length ws)%nat -> (prefix_sum ws (S i) - prefix_sum ws i == nth i ws 0)%Q) /\
+  (prefix_sum ws 0 == 0)%Q /\ (prefix_sum ws (length ws) == sumQ ws)%Q /\
+  (pick ws u < length ws)%nat.
+Proof. exact sampler_measure. Qed.
+Print Assumptions C10_sampler_measure.
+
+Theorem C10_uniform_init : forall n, (1 <= n)%nat ->
+  length (uniform_policy n) = n /\
+  (sumQ (uniform_policy n) == 1)%Q /\
+  (forall p, In p (uniform_policy n) -> (0 < p)%Q /\ (p == 1 / inject_Z (Z.of_nat n))%Q).
+Proof. exact uniform_init. Qed.
+Print Assumptions C10_uniform_init.
+
+(* ---------- examples: the hypotheses are satisfiable ---------- *)
+Example C10_hyps_wf : wf_holes Standard ex_holes.
+Proof. exact ex_holes_wf. Qed.
+Example C10_hyps_root : root Standard ex_holes = Some ex_root.
+Proof. exact ex_root_ok. Qed.
+(* a tree path of 7 edges to a flop decision node (also a sampled history with short rounds) *)
+Example C10_hyps_path : tree_path Standard ex_root ex_line_history ex_line_node.
+Proof. exact ex_line_path. Qed.
+Example C10_hyps_sampled :
+  sampled_history ex_line_history /\ max_round_length ex_line_history <= MAX_DEPTH_SUBGAME.
+Proof.
+  split; [exact (C10_tree_path_sampled _ _ _ _ ex_line_path)|].
+  exact (C10_round_fits_window _ _ _ _ _ ex_holes_wf ex_root_ok ex_line_path).
+Qed.
+(* rounds of 7 edges occur (limp, four raises, all-in, all-in), with exactly MAX_RAISE_REPEATS + 1 raises *)
+Example C10_hyps_long_round : exists g, tree_path Standard ex_root (map fst ex_long_edges) g /\
+  turn_of g = Chance /\ max_round_length (map fst ex_long_edges) = 7 /\
+  max_raise_edges_per_round (map fst ex_long_edges) = MAX_RAISE_REPEATS + 1.
+Proof. exact ex_long_path. Qed.
+Example C10_hyps_long_round_aggro : max_raises_per_round (map fst ex_long_edges) = MAX_RAISE_REPEATS + 3.
+Proof. vm_compute. reflexivity. Qed.
+(* a raise edge on a menu *)
+Example C10_hyps_raise_on_menu : exists m, node_menu ex_root [] = Some m /\ In (ERaise 1 1) m.
+Proof. apply on_menu_sound. vm_compute. reflexivity. Qed.
+(* a decision node, a chance node with an accepted deal, a leaf *)
+Example C10_hyps_choice : reachable Standard ex_holes ex_line_node /\ turn_of ex_line_node = Choice 1 /\
+  who_acts ex_line_node 1 = WTraverser.
+Proof.
+  split; [exact (ex_reachable_of_path _ _ ex_line_path)|]. split; vm_compute; reflexivity.
+Qed.
+Example C10_hyps_chance : reachable Standard ex_holes ex_chance_node /\ turn_of ex_chance_node = Chance /\
+  is_allowed Standard ex_chance_node (Draw ex_flop) = Some true.
+Proof.
+  destruct ex_chance_path as (Hp & Ht & Ha). split; [exact (ex_reachable_of_path _ _ Hp)|]. split; assumption.
+Qed.
+Example C10_hyps_leaf : exists g, reachable Standard ex_holes g /\ turn_of g = Terminal /\
+  settlements Standard g = Some [0; 6].
+Proof.
+  destruct ex_leaf_path as (g & Hp & Ht & Hs). exists g.
+  split; [exact (ex_reachable_of_path _ _ Hp)|]. split; assumption.
+Qed.
+(* the sampler on weights 1/2, 0, 1/4, 1/4 *)
+Example C10_hyps_sampler :
+  map (pick [1 # 2; 0; 1 # 4; 1 # 4]%Q) [0; 49 # 100; 1 # 2; 74 # 100; 3 # 4; 99 # 100]%Q
+  = [0; 0; 2; 2; 3; 3]%nat.
+Proof. vm_compute. reflexivity. Qed.
